@@ -38,7 +38,6 @@ RULE = ("case = multi-task program as in C08 with per-task priorities from {-10,
         "a re-keyed entry, an inherited priority, a maintenance round; distinct = hash of the canonical program text")
 
 DRAWS = [0.9, 0.1, 0.5, 0.3, 0.7]
-BAD_MARK = ("E:", "!")
 
 
 def exc_in(log):
@@ -50,7 +49,7 @@ def exc_in(log):
 
 def run_exact(prog):
     """priority loop, boosting off, lock-step reference -> (log, failure or None, tags)"""
-    r = S.RealRunner(prog, "prio", boost=0.0, shadow=S_TAGS, check_runnable=True)
+    r = S.RealRunner(prog, "prio", boost=0.0, shadow=True, check_runnable=True)
     log = r.run()
     bad = exc_in(log)
     if bad is not None:
@@ -64,8 +63,6 @@ def run_exact(prog):
         return log, ("runnable", "", r.runnable_fail), r
     return log, None, r
 
-
-S_TAGS = True
 
 
 def run_equal(prog):
